@@ -1,37 +1,76 @@
 /* unit transport_onclose: members of Transport::Impl for the close fan-out (observer maps, user data), added to the shared Impl image
  * (shims/iora_tsync.h, IORA_IMPL_EXTRA). Included BEFORE iora_tsync.h, after iora_monitor.h / iora_gmap1.h.
  *
- * iora_obsvec - std::vector<std::pair<ObserverId, CloseCallback>> as a GHOST-INDEXED vector with ONE witness index GI (arbitrary, fixed):
- *   length n is exact; the element at index GI is stored (w); every other index answers with an arbitrary element whose id differs from
- *   w.id (observer ids are unique: nextObserverId.fetch_add). A clause proved for arbitrary GI holds for every element.  */
+ * iora_obsvec - std::vector<std::pair<ObserverId, CloseCallback>> as a GHOST-INDEXED vector with TWO witness indices GI < GJ (arbitrary, fixed) and a ghost
+ *   registration sequence number per element. A clause proved for arbitrary GI < GJ holds for every pair of elements (relative order!).  */
 #ifndef ONCLOSE_TYPES_H
 #define ONCLOSE_TYPES_H
-size_t GI;
-typedef struct { uint64_t id; bool cb_set; } iora_obs;          /* pair<ObserverId, CloseCallback>: id + "callback holds a callable" */
-typedef struct { size_t n; iora_obs w; } iora_obsvec;
-#define iora_obsvec_DEFAULT ((iora_obsvec){0, {0, 0}})
+size_t GI, GJ;                                    /* two witness indices, GI < GJ (assumed by every harness) */
+size_t G_next_seq;                                /* ghost: registration sequence number handed to the next observe() - larger than that of every registered observer */
+/* pair<ObserverId, CloseCallback>: id + "callback holds a callable" + GHOST registration sequence number (the order in which observe() was called) */
+typedef struct { uint64_t id; bool cb_set; size_t seq; } iora_obs;
+/* length n is exact; the elements at the indices GI (w) and GJ (w2) are stored; every other index answers with an arbitrary element whose id differs
+ * from both and whose seq is consistent with the vector being SORTED by seq (the representation invariant OBS_SORTED: registration order == vector order) */
+typedef struct { size_t n; iora_obs w; iora_obs w2; } iora_obsvec;
+#define iora_obsvec_DEFAULT ((iora_obsvec){0, {0, 0, 0}, {0, 0, 0}})
+#define OBS_SORTED(v) ((!(GJ < (v).n) || (v).w.seq < (v).w2.seq) && (!(GI < (v).n) || (v).w.seq < G_next_seq) && (!(GJ < (v).n) || (v).w2.seq < G_next_seq) \
+                       && (!(GJ < (v).n) || (v).w.id != (v).w2.id))
 static inline size_t iora_obsvec_size(const iora_obsvec *v) { return v->n; }
 static inline bool iora_obsvec_empty(const iora_obsvec *v) { return v->n == 0; }
+static inline iora_obs iora_obsvec_other(const iora_obsvec *v, size_t i)
+{
+  iora_obs o; o.id = nondet_u64(); o.cb_set = nondet_bool(); o.seq = nondet_size_t();
+  IORA_ASSUME(o.seq < G_next_seq);
+  IORA_ASSUME(!(GI < v->n) || (o.id != v->w.id && (i < GI ? o.seq < v->w.seq : o.seq > v->w.seq)));
+  IORA_ASSUME(!(GJ < v->n) || (o.id != v->w2.id && (i < GJ ? o.seq < v->w2.seq : o.seq > v->w2.seq)));
+  return o;
+}
 static inline iora_obs iora_obsvec_at(const iora_obsvec *v, size_t i)
 {
   IORA_ASSERT(i < v->n, "vector element access in range");
   if (i == GI) return v->w;
-  iora_obs o; o.id = nondet_u64(); o.cb_set = nondet_bool(); IORA_ASSUME(!(GI < v->n) || o.id != v->w.id);
-  return o;
+  if (i == GJ) return v->w2;
+  return iora_obsvec_other(v, i);
 }
+static inline void iora_obsvec_set(iora_obsvec *v, size_t i, iora_obs o) { if (i == GI) v->w = o; else if (i == GJ) v->w2 = o; }
 static inline void iora_obsvec_emplace_back(iora_obsvec *v, uint64_t id, bool cb_set)
-{ IORA_ASSERT(v->n < (size_t)-1, "vector growth"); if (v->n == GI) { v->w.id = id; v->w.cb_set = cb_set; } v->n++; }
-/* vec.erase(std::remove_if(vec.begin(), vec.end(), [id](const auto &p){ return p.first == id; }), vec.end()): STABLE removal of every element whose
- * id is X; ids are unique, so at most one element goes. If it sits before the witness index the elements shift down and the witness slot
- * now holds the former next element (arbitrary, id != X). Returns the number of removed elements. */
+{ IORA_ASSERT(v->n < (size_t)-1 && G_next_seq < (size_t)-1, "vector growth"); iora_obs o = { id, cb_set, G_next_seq }; G_next_seq++; iora_obsvec_set(v, v->n, o); v->n++; }
+/* vec.erase(std::remove_if(vec.begin(), vec.end(), [id](const auto &p){ return p.first == id; }), vec.end()): STABLE removal (std::remove_if keeps the relative
+ * order of the kept elements) of the element whose id is X - ids are unique, so at most one goes. Everything behind it moves down by one: a witness slot at
+ * or behind the removed position now holds the former NEXT element. Returns the number of removed elements. */
 static inline size_t iora_obsvec_remove_id(iora_obsvec *v, uint64_t X)
 {
-  size_t removed = 0; bool shift = 0;
-  if (GI < v->n && v->w.id == X) { removed = 1; shift = 1; }
-  else if (v->n > 0 && nondet_bool()) { removed = 1; shift = nondet_bool(); IORA_ASSUME(v->n >= 2 || !(GI < v->n)); }
-  if (removed) { v->n--; if (shift && GI < v->n) { v->w.id = nondet_u64(); v->w.cb_set = nondet_bool(); IORA_ASSUME(v->w.id != X); } }
-  return removed;
+  size_t p = v->n;                                                     /* position of the element with id X, or n */
+  if (GI < v->n && v->w.id == X) p = GI;
+  else if (GJ < v->n && v->w2.id == X) p = GJ;
+  else if (nondet_bool()) { p = nondet_size_t(); IORA_ASSUME(p < v->n && p != GI && p != GJ); }
+  if (p == v->n) return 0;
+  iora_obsvec old = *v;
+  if (p <= GI) { iora_obs nx = (GI + 1 < old.n) ? iora_obsvec_at(&old, GI + 1) : old.w; IORA_ASSUME(nx.id != X); v->w = nx; }
+  if (p <= GJ) { iora_obs nx = (GJ + 1 < old.n) ? iora_obsvec_at(&old, GJ + 1) : old.w2; IORA_ASSUME(nx.id != X); v->w2 = nx; }
+  v->n--;
+  IORA_ASSUME(!(GJ < v->n) || v->w.id != v->w2.id);        /* ids are unique also among the non-witness elements that moved into the witness slots */
+  return 1;
 }
+/* ---- the same removal written as find_if + swap-with-back + pop_back: element-level operations, so that what they do to the ORDER is decided by the contract ---- */
+/* std::find_if(vec.begin(), vec.end(), [id](const auto &p){ return p.first == id; }) as an index (n == end()) */
+static inline size_t iora_obsvec_find_id(const iora_obsvec *v, uint64_t X)
+{
+  if (GI < v->n && v->w.id == X) return GI;
+  if (GJ < v->n && v->w2.id == X) return GJ;
+  if (nondet_bool()) { size_t p = nondet_size_t(); IORA_ASSUME(p < v->n && p != GI && p != GJ); return p; }
+  return v->n;
+}
+/* std::swap(*pos, vec.back()) */
+static inline void iora_obsvec_swap_with_back(iora_obsvec *v, size_t p)
+{
+  IORA_ASSERT(p < v->n, "swap: dereferenceable iterator, non-empty vector");
+  size_t b = v->n - 1;
+  if (p == b) return;
+  iora_obs ep = iora_obsvec_at(v, p), eb = iora_obsvec_at(v, b);
+  iora_obsvec_set(v, p, eb); iora_obsvec_set(v, b, ep);
+}
+static inline void iora_obsvec_pop_back(iora_obsvec *v) { IORA_ASSERT(v->n > 0, "pop_back on a non-empty vector"); v->n--; }
 /* struct Impl::UserData { void *data; SessionCleanupCallback cleanup; } */
 typedef struct { uint64_t data; bool cleanup; } UserData;
 #define UserData_DEFAULT ((UserData){0, 0})
